@@ -74,15 +74,26 @@ Proof. intros [->| ->]; reflexivity. Qed.
 Lemma sound_skip v l ts : sound_variant v -> db_skip v l ts = true -> l < ts.
 Proof. intros [->| ->]; unfold db_skip; lia. Qed.
 
+(* The invariants are developed once, with a flag `rst`: rst = false is the
+   development without restarts of the node (the statements used by C37 and
+   by the first theorems of C11, re-exported with their old names after the
+   modules); rst = true admits the operation ORestart. *)
+Module RInv.
 Section Inv.
 Variable tsof : N -> Z.
 Variable gof : N -> bool.
 Variable v : variant.
 Hypothesis Hv : sound_variant v.
+Variable rst : bool.
 
-(* what the manager knows about an id that was committed *)
+(* what the manager knows about an id that was committed: it is in the database and
+   (it is in m.locators, or its timestamp is below maxTSInDB, or — only after a
+   restart — maxTSInDB is still unknown and every cached list has a larger bound) *)
 Definition minv (m : manager) (X : N) : Prop :=
-  In X (m_db m) /\ (In X (m_locs m) \/ tsof X <= c_max (cache_of m (gof X))).
+  In X (m_db m) /\
+  (In X (m_locs m) \/ tsof X <= c_max (cache_of m (gof X)) \/
+   (rst = true /\ c_max (cache_of m (gof X)) = 0 /\
+    forall P, In P (c_lists (cache_of m (gof X))) -> l_ts P <> 0 -> tsof X <= l_ts P + l_th P)).
 
 Definition list_ok (g : bool) (P : txlist) : Prop :=
   forall Y, In Y (l_ids P) -> tsof Y <= l_ts P + l_th P /\ gof Y = g /\ l_ts P <> 0.
@@ -90,35 +101,47 @@ Definition list_ok (g : bool) (P : txlist) : Prop :=
 Definition cinv (m : manager) : Prop :=
   forall g P, In P (c_lists (cache_of m g)) -> list_ok g P.
 
+Definition mxinv (m : manager) : Prop := forall g, 0 <= c_max (cache_of m g).
+
+(* the bound of a list that is (or will be) committed covers the ids the manager
+   can only find in the database while maxTSInDB is unknown *)
+Definition preok (m : manager) (g : bool) (bound : Z) : Prop :=
+  forall X, In X (m_db m) -> gof X = g -> ~ In X (m_locs m) ->
+            c_max (cache_of m g) = 0 -> 0 < tsof X -> tsof X <= bound.
+
 Lemma manager_has_true m g X :
   minv m X -> gof X = g -> manager_has_v v m g X (tsof X) = true.
 Proof.
   intros [Hdb Hl] Hg. unfold manager_has_v.
   destruct (mem X (m_locs m)) eqn:E; [reflexivity|].
-  apply mem_false in E. destruct Hl as [Hl|Hl]; [contradiction|].
-  destruct (db_skip v (c_max (cache_of m g)) (tsof X)) eqn:E2.
-  - apply sound_skip in E2; [|exact Hv]. subst g. lia.
-  - now apply mem_In.
+  apply mem_false in E. subst g. destruct Hl as [Hl|[Hl|(_ & H0 & _)]]; [contradiction| |].
+  - destruct (db_skip v (c_max (cache_of m (gof X))) (tsof X)) eqn:E2.
+    + apply sound_skip in E2; [|exact Hv]. lia.
+    + now apply mem_In.
+  - rewrite H0. assert (E0 : db_skip v 0 (tsof X) = false) by (destruct v; reflexivity).
+    rewrite E0. now apply mem_In.
 Qed.
 
-(* the eviction loop: an id leaves m.locators only under a bound >= its timestamp *)
+(* the eviction loop: an id leaves m.locators only under a bound >= its timestamp;
+   maxTSInDB stays, or becomes the bound of an evicted list *)
 Lemma evict_spec g listMin ls : forall locs mx ls' locs' mx',
   (forall P, In P ls -> list_ok g P) ->
   evict listMin ls locs mx = (ls', locs', mx') ->
   mx <= mx' /\
   (forall P, In P ls' -> In P ls) /\
   (forall X, In X locs' -> In X locs) /\
-  (forall X, In X locs -> In X locs' \/ (gof X = g /\ tsof X <= mx')).
+  (forall X, In X locs -> In X locs' \/ (gof X = g /\ tsof X <= mx')) /\
+  (mx' = mx \/ exists P, In P ls /\ l_ts P <> 0 /\ mx' = l_ts P + l_th P).
 Proof.
   induction ls as [|p rest IH]; cbn [evict]; intros locs mx ls' locs' mx' Hok E.
   - inversion E; subst. repeat split; auto; lia.
   - destruct (l_ts p + l_th p >? listMin) eqn:Eg.
     + inversion E; subst. repeat split; auto; lia.
     + apply IH in E; [|intros P HP; apply Hok; now right].
-      destruct E as (Hmx & Hls & Hsub & Hkeep).
+      destruct E as (Hmx & Hls & Hsub & Hkeep & Hwho).
       assert (Hmx0 : mx <= mx') by
         (destruct (negb (l_ts p =? 0) && (mx <? l_ts p + l_th p)) eqn:Eu; lia).
-      repeat split; auto.
+      split; [exact Hmx0|]. split; [|split; [|split]].
       * intros P HP. right. now apply Hls.
       * intros X HX. apply Hsub in HX. apply In_remove_all in HX. tauto.
       * intros X HX.
@@ -128,6 +151,11 @@ Proof.
            split; [assumption|].
            destruct (negb (l_ts p =? 0) && (mx <? l_ts p + l_th p)) eqn:Eu; lia.
         -- apply mem_false in Em. apply Hkeep. apply In_remove_all. tauto.
+      * destruct Hwho as [Hw|(P & HP & Hz & Hw)].
+        -- destruct (negb (l_ts p =? 0) && (mx <? l_ts p + l_th p)) eqn:Eu.
+           ++ right. exists p. split; [now left|]. split; [lia|exact Hw].
+           ++ now left.
+        -- right. exists P. split; [now right|]. now split.
 Qed.
 
 Lemma cache_of_set_same m g c : cache_of (set_cache m g c) g = c.
@@ -153,11 +181,14 @@ Qed.
 
 (* one commitTracker + flush *)
 Lemma commit_list_inv m L :
-  cinv m -> list_ok (l_grp L) L ->
+  cinv m -> mxinv m -> list_ok (l_grp L) L ->
+  (rst = true -> preok m (l_grp L) (l_ts L + l_th L)) ->
   let m' := commit_list m L in
-  cinv m' /\ (forall X, minv m X -> minv m' X) /\ (forall Y, In Y (l_ids L) -> minv m' Y).
+  cinv m' /\ mxinv m' /\ (forall X, minv m X -> minv m' X) /\
+  (forall Y, In Y (l_ids L) -> minv m' Y) /\
+  (forall g bound, preok m g bound -> preok m' g bound).
 Proof.
-  intros Hc HL. unfold commit_list, add_list_and_clear_old.
+  intros Hc Hmxi HL Hpre. unfold commit_list, add_list_and_clear_old.
   set (over := filter (fun k => mem k (m_locs m)) (l_ids L)).
   set (locs1 := m_locs m ++ filter (fun k => negb (mem k (m_locs m))) (l_ids L)).
   set (m1 := {| m_locs := locs1; m_cp := blank_cache over (m_cp m);
@@ -169,7 +200,7 @@ Proof.
   assert (Hok1 : forall P, In P (c_lists (cache_of m1 g)) -> list_ok g P).
   { intros P HP. rewrite Hc1 in HP. cbn in HP. apply in_map_iff in HP.
     destruct HP as [P0 [<- HP0]]. apply blank_ok. now apply Hc. }
-  destruct (evict_spec g _ _ _ _ _ _ _ Hok1 E) as (Hmx & Hls & Hsub & Hkeep).
+  destruct (evict_spec g _ _ _ _ _ _ _ Hok1 E) as (Hmx & Hls & Hsub & Hkeep & Hwho).
   cbn [m_locs m_cp m_cn m_db m1] in *.
   set (mm := {| m_locs := locs'; m_cp := blank_cache over (m_cp m);
                 m_cn := blank_cache over (m_cn m); m_db := m_db m ++ l_ids L |}).
@@ -177,54 +208,102 @@ Proof.
   assert (Hcache : forall g', cache_of (set_cache mm g cnew) g' =
                               if Bool.eqb g' g then cnew else blank_cache over (cache_of m g')).
   { intros g'. destruct g, g'; reflexivity. }
+  rewrite Hc1 in Hmx, Hwho, Hls. cbn [blank_cache c_max c_lists] in Hmx, Hwho, Hls.
   assert (Hmaxmono : forall g', c_max (cache_of m g') <= c_max (cache_of (set_cache mm g cnew) g')).
   { intros g'. rewrite Hcache. destruct (Bool.eqb g' g) eqn:Eb.
-    - apply Bool.eqb_prop in Eb. subst g'. cbn. rewrite Hc1 in Hmx. cbn in Hmx. exact Hmx.
+    - apply Bool.eqb_prop in Eb. subst g'. cbn. exact Hmx.
     - cbn. lia. }
   (* an id in locs1 stays, or is bounded *)
   assert (Hstay : forall X, In X locs1 ->
             In X locs' \/ tsof X <= c_max (cache_of (set_cache mm g cnew) (gof X))).
   { intros X HX. destruct (Hkeep X HX) as [H|[Hg Hts]]; [now left|right].
     rewrite Hcache, Hg, Bool.eqb_reflx. cbn. exact Hts. }
-  split; [|split].
+  (* a blanked list has the timestamp and threshold of a list of the old cache *)
+  assert (Hblank : forall g' P, In P (map (blank_list over) (c_lists (cache_of m g'))) ->
+            exists P0, In P0 (c_lists (cache_of m g')) /\ l_ts P = l_ts P0 /\ l_th P = l_th P0).
+  { intros g' P HP. apply in_map_iff in HP. destruct HP as [P0 [<- HP0]]. exists P0. now repeat split. }
+  assert (Hmx' : mxinv (set_cache mm g cnew)).
+  { intros g'. specialize (Hmaxmono g'). specialize (Hmxi g'). lia. }
+  split; [|split; [exact Hmx'|split; [|split]]].
   - (* cinv *)
     intros g' P HP. rewrite Hcache in HP. destruct (Bool.eqb g' g) eqn:Eb.
     + apply Bool.eqb_prop in Eb. subst g'. cbn in HP. apply in_app_iff in HP.
       destruct HP as [HP|[<-|[]]]; [|exact HL].
-      apply Hok1. now apply Hls.
+      apply Hok1. rewrite Hc1. cbn. now apply Hls.
     + cbn in HP. apply in_map_iff in HP. destruct HP as [P0 [<- HP0]].
       apply blank_ok. now apply Hc.
   - (* monotone *)
     intros X [Hdb Hl]. split.
     + rewrite db_set. cbn. apply in_app_iff. now left.
-    + rewrite locs_set. cbn. destruct Hl as [Hl|Hl].
-      * apply Hstay. unfold locs1. apply in_app_iff. now left.
-      * right. specialize (Hmaxmono (gof X)). lia.
+    + rewrite locs_set. cbn.
+      destruct (mem X (m_locs m)) eqn:EmX.
+      { apply mem_In in EmX.
+        destruct (Hstay X) as [H|H]; [unfold locs1; apply in_app_iff; now left|now left|right; now left]. }
+      apply mem_false in EmX.
+      destruct Hl as [Hl|[Hl|(Hr & H0 & Hsafe)]]; [contradiction| |].
+      * right. left. specialize (Hmaxmono (gof X)). lia.
+      * destruct (Z_le_gt_dec (tsof X) 0) as [Hneg|Hpos].
+        { right. left. specialize (Hmx' (gof X)). lia. }
+        rewrite Hcache. destruct (Bool.eqb (gof X) g) eqn:Eb.
+        -- apply Bool.eqb_prop in Eb. cbn [cnew c_max c_lists].
+           rewrite Eb in H0, Hsafe.
+           destruct Hwho as [Hw|(P & HP & Hz & Hw)].
+           ++ right. right. split; [exact Hr|]. split; [lia|].
+              intros P HP Hz. apply in_app_iff in HP. destruct HP as [HP|[<-|[]]].
+              ** apply Hls in HP. destruct (Hblank g P HP) as (P0 & HP0 & Ets & Eth).
+                 rewrite Ets, Eth. apply Hsafe; [exact HP0|congruence].
+              ** apply (Hpre Hr X Hdb Eb EmX H0). lia.
+           ++ right. left. destruct (Hblank g P HP) as (P0 & HP0 & Ets & Eth).
+              rewrite Hw, Ets, Eth. apply Hsafe; [exact HP0|congruence].
+        -- right. right. split; [exact Hr|]. cbn [blank_cache c_max c_lists]. split; [exact H0|].
+           intros P HP Hz. destruct (Hblank (gof X) P HP) as (P0 & HP0 & Ets & Eth).
+           rewrite Ets, Eth. apply Hsafe; [exact HP0|congruence].
   - (* the ids of L *)
     intros Y HY. split.
     + rewrite db_set. cbn. apply in_app_iff. now right.
-    + rewrite locs_set. cbn. apply Hstay. unfold locs1. apply in_app_iff.
+    + rewrite locs_set. cbn.
+      destruct (Hstay Y) as [H|H]; [|now left|right; now left].
+      unfold locs1. apply in_app_iff.
       destruct (mem Y (m_locs m)) eqn:Em.
       * left. now apply mem_In.
       * right. apply filter_In. split; [assumption|]. now rewrite Em.
+  - (* ids that can only be found in the database while maxTSInDB is unknown: no new ones *)
+    intros g' bound Hp X Hdb Hg Hnl H0 Hpos.
+    rewrite db_set in Hdb. rewrite locs_set in Hnl. cbn [mm m_db m_locs] in Hdb, Hnl.
+    assert (Hold0 : c_max (cache_of m g') = 0).
+    { specialize (Hmaxmono g'). specialize (Hmxi g'). lia. }
+    assert (Hnl1 : ~ In X locs1).
+    { intro HX. destruct (Hstay X HX) as [H|H]; [contradiction|]. rewrite Hg, H0 in H. lia. }
+    apply (Hp X); auto.
+    + apply in_app_iff in Hdb. destruct Hdb as [H|H]; [exact H|].
+      exfalso. apply Hnl1. unfold locs1. apply in_app_iff.
+      destruct (mem X (m_locs m)) eqn:Em; [left; now apply mem_In|].
+      right. apply filter_In. split; [assumption|]. now rewrite Em.
+    + intro HX. apply Hnl1. unfold locs1. apply in_app_iff. now left.
 Qed.
 
 Lemma commit_fold_inv js : forall m,
-  cinv m -> (forall L, In L js -> list_ok (l_grp L) L) ->
+  cinv m -> mxinv m -> (forall L, In L js -> list_ok (l_grp L) L) ->
+  (rst = true -> forall L, In L js -> preok m (l_grp L) (l_ts L + l_th L)) ->
   let m' := fold_left commit_list js m in
-  cinv m' /\ (forall X, minv m X -> minv m' X) /\
-  (forall L Y, In L js -> In Y (l_ids L) -> minv m' Y).
+  cinv m' /\ mxinv m' /\ (forall X, minv m X -> minv m' X) /\
+  (forall L Y, In L js -> In Y (l_ids L) -> minv m' Y) /\
+  (forall g bound, preok m g bound -> preok m' g bound).
 Proof.
-  induction js as [|L js IH]; cbn [fold_left]; intros m Hc Hok.
-  - split; [exact Hc|split; [auto|]]. intros L0 Y0 [].
-  - destruct (commit_list_inv m L Hc (Hok L (or_introl eq_refl))) as (Hc1 & Hm1 & Hl1).
-    destruct (IH (commit_list m L) Hc1 (fun L' H => Hok L' (or_intror H))) as (Hc2 & Hm2 & Hl2).
-    split; [exact Hc2|split].
+  induction js as [|L js IH]; cbn [fold_left]; intros m Hc Hx Hok Hpre.
+  - split; [exact Hc|split; [exact Hx|split; [auto|split; [|auto]]]]. intros L0 Y0 [].
+  - destruct (commit_list_inv m L Hc Hx (Hok L (or_introl eq_refl))
+                (fun Hr => Hpre Hr L (or_introl eq_refl))) as (Hc1 & Hx1 & Hm1 & Hl1 & Hp1).
+    destruct (IH (commit_list m L) Hc1 Hx1 (fun L' H => Hok L' (or_intror H))
+                (fun Hr L' H => Hp1 _ _ (Hpre Hr L' (or_intror H)))) as (Hc2 & Hx2 & Hm2 & Hl2 & Hp2).
+    split; [exact Hc2|split; [exact Hx2|split; [|split]]].
     + intros X HX. apply Hm2. now apply Hm1.
     + intros L' Y [<-|HL'] HY; [apply Hm2; now apply Hl1|now apply (Hl2 L')].
+    + intros g bound H. apply Hp2. now apply Hp1.
 Qed.
 
 End Inv.
+End RInv.
 
 (* ------------------------------------------------------------------ *)
 (* C. the tracker store                                                *)
@@ -524,7 +603,8 @@ Proof.
 Qed.
 
 Lemma cw_jobs_from l : forall cur L,
-  In L (snd (commit_walk l cur)) -> exists k tk, get l k = Some tk /\ L = list_of tk.
+  In L (snd (commit_walk l cur)) ->
+  exists k tk, get l k = Some tk /\ t_open tk = true /\ L = list_of tk.
 Proof.
   induction l as [|t0 rest IH]; intros cur L H.
   { destruct cur; destruct H. }
@@ -532,21 +612,75 @@ Proof.
   destruct (Nat.eqb_spec c (length rest)) as [->|Hc].
   - pose proof (IH (t_parent t0) L) as IHk.
     destruct (commit_walk rest (t_parent t0)) as [rest' js]. cbn [snd] in *.
-    assert (Hin : L = list_of t0 \/ In L js) by (destruct (t_open t0); [destruct H; auto|auto]).
-    destruct Hin as [->|Hin].
-    + exists (length rest), t0. split; [apply get_cons_eq|reflexivity].
-    + destruct (IHk Hin) as (k & tk & Hg & ->). exists k, tk. split; [|reflexivity].
+    assert (Hin : (t_open t0 = true /\ L = list_of t0) \/ In L js)
+      by (destruct (t_open t0); [destruct H; auto|auto]).
+    destruct Hin as [[Ho ->]|Hin].
+    + exists (length rest), t0. split; [apply get_cons_eq|now split].
+    + destruct (IHk Hin) as (k & tk & Hg & Ho & ->). exists k, tk. split; [|now split].
       rewrite get_cons_ne; [assumption|]. apply get_lt in Hg. lia.
   - pose proof (IH (Some c) L) as IHk.
     destruct (commit_walk rest (Some c)) as [rest' js]. cbn [snd] in *.
-    destruct (IHk H) as (k & tk & Hg & ->). exists k, tk. split; [|reflexivity].
+    destruct (IHk H) as (k & tk & Hg & Ho & ->). exists k, tk. split; [|now split].
     rewrite get_cons_ne; [assumption|]. apply get_lt in Hg. lia.
+Qed.
+
+(* --- Restart --- *)
+
+Lemma get_kill l : forall k, get (map kill l) k = option_map kill (get l k).
+Proof.
+  induction l as [|t0 rest IH]; intros k; cbn; [reflexivity|].
+  rewrite map_length. destruct (Nat.eqb k (length rest)); [reflexivity|apply IH].
+Qed.
+
+Lemma kill_fields tk :
+  t_grp (kill tk) = t_grp tk /\ t_ts (kill tk) = t_ts tk /\ t_th (kill tk) = t_th tk /\
+  t_gparent (kill tk) = t_gparent tk /\ t_open (kill tk) = false /\
+  (forall X, In X (t_ids (kill tk)) -> In X (t_ids tk) /\ t_open tk = false) /\
+  (t_open tk = false -> kill tk = tk).
+Proof.
+  unfold kill. destruct (t_open tk) eqn:E; cbn; repeat split; auto; try contradiction; congruence.
+Qed.
+
+Lemma chain_kill_incl l : forall cur X,
+  In X (chain_from (map kill l) cur) -> In X (chain_from l cur).
+Proof.
+  induction l as [|t0 rest IH]; intros [k|] X H; cbn in *; try contradiction.
+  rewrite map_length in H. destruct (Nat.eqb k (length rest)); [|auto].
+  destruct (kill_fields t0) as (_ & _ & _ & Eg & _ & Hi & _).
+  apply in_app_iff in H. apply in_app_iff. destruct H as [H|H].
+  - left. now apply Hi.
+  - right. rewrite Eg in H. auto.
+Qed.
+
+Lemma NoDup_app_inv {A} (a b : list A) :
+  NoDup (a ++ b) -> NoDup a /\ NoDup b /\ (forall x, In x a -> ~ In x b).
+Proof.
+  induction a as [|x a IH]; cbn; intro H.
+  - repeat split; [constructor|assumption|intros ? []].
+  - inversion H; subst. destruct (IH H3) as (Ha & Hb & Hd). repeat split; auto.
+    + constructor; [|assumption]. intro Hx. apply H2. apply in_app_iff. now left.
+    + intros y [<-|Hy] Hyb; [apply H2; apply in_app_iff; now right|now apply (Hd y)].
+Qed.
+
+Lemma chain_kill_nodup l : forall cur,
+  NoDup (chain_from l cur) -> NoDup (chain_from (map kill l) cur).
+Proof.
+  induction l as [|t0 rest IH]; intros [k|] H; cbn in *; try constructor.
+  rewrite map_length. destruct (Nat.eqb k (length rest)); [|auto].
+  destruct (kill_fields t0) as (_ & _ & _ & Eg & _ & Hi & _).
+  destruct (NoDup_app_inv _ _ H) as (Ha & Hb & Hd). rewrite Eg.
+  apply NoDup_app_intro.
+  - unfold kill. destruct (t_open t0); [constructor|assumption].
+  - now apply IH.
+  - intros X HX HXc. apply Hi in HX. apply chain_kill_incl in HXc. now apply (Hd X).
 Qed.
 
 (* ------------------------------------------------------------------ *)
 (* D. the invariant                                                    *)
 (* ------------------------------------------------------------------ *)
 
+Module RHist.
+Import RInv.
 Section Hist.
 Variable tsof : N -> Z.
 Variable gof : N -> bool.
@@ -556,6 +690,8 @@ Hypothesis Hv : sound_variant v.
    the invariant carries the absence of duplicates; full = false: only what is
    needed to find committed ids *)
 Variable full : bool.
+(* rst = true: ORestart may occur in the history *)
+Variable rst : bool.
 
 (* what validation guarantees about a recorded id, as far as the lookup needs it *)
 Definition tx_ok (tk : tracker) (X : N) : Prop :=
@@ -573,9 +709,12 @@ Record ginv (l : list tracker) (m : manager) : Prop := {
   gi_grp : forall k tk p tp, get l k = Some tk -> t_gparent tk = Some p ->
              get l p = Some tp -> t_grp tp = t_grp tk;
   gi_minv : forall k tk X, get l k = Some tk -> t_open tk = false -> In X (t_ids tk) ->
-             minv tsof gof m X;
+             minv tsof gof rst m X;
   gi_nodup : full = true -> forall k, NoDup (chain_from l (Some k));
-  gi_cinv : cinv tsof gof m }.
+  gi_cinv : cinv tsof gof m;
+  gi_mx : mxinv m;
+  gi_pre : rst = true -> forall k tk, get l k = Some tk -> t_open tk = true ->
+             preok tsof gof m (t_grp tk) (t_ts tk + t_th tk) }.
 
 Definition closed_at (l : list tracker) (gp : option nat) : Prop :=
   forall p tp, gp = Some p -> get l p = Some tp -> t_open tp = false.
@@ -584,7 +723,7 @@ Definition grp_at (l : list tracker) (gp : option nat) (g : bool) : Prop :=
 
 Lemma closed_chain l m : ginv l m -> forall n gp g X,
   (forall p, gp = Some p -> (p < n)%nat) -> closed_at l gp -> grp_at l gp g ->
-  In X (chain_from l gp) -> minv tsof gof m X /\ gof X = g.
+  In X (chain_from l gp) -> minv tsof gof rst m X /\ gof X = g.
 Proof.
   intros GI. induction n as [|n IH]; intros gp g X Hb Hc Hg HX.
   - destruct gp as [p|]; [specialize (Hb p eq_refl); lia|destruct l; destruct HX].
@@ -615,7 +754,7 @@ Proof.
     2:{ destruct (closed_chain l m GI (S n) gp g X Hb Hc Hg HX) as [Hm Hgo].
         assert (E : has_from v m l None g X (tsof X) = Some (manager_has_v v m g X (tsof X)))
           by (destruct l; reflexivity).
-        rewrite E, (manager_has_true tsof gof v Hv m g X Hm Hgo). discriminate. }
+        rewrite E, (manager_has_true tsof gof v Hv rst m g X Hm Hgo). discriminate. }
     destruct gp as [k|]; [|destruct l; destruct HX].
     destruct (get l k) as [tk|] eqn:Ek; [|rewrite (chain_none l k Ek) in HX; destruct HX].
     assert (Hbk : forall p, t_gparent tk = Some p -> (p < k)%nat)
@@ -641,7 +780,7 @@ Proof.
       * cbn [andb]. rewrite (gi_closed _ _ GI k tk Ek Eo).
         assert (E : has_from v m l None (t_grp tk) X (tsof X)
                     = Some (manager_has_v v m (t_grp tk) X (tsof X))) by (destruct l; reflexivity).
-        rewrite E, (manager_has_true tsof gof v Hv m (t_grp tk) X
+        rewrite E, (manager_has_true tsof gof v Hv rst m (t_grp tk) X
                       (gi_minv _ _ GI k tk X Ek Eo HX) Hgo). discriminate.
     + destruct (skip_own v (tsof X) (t_ts tk + t_th tk)); [now apply Hup|].
       destruct (t_open tk && mem X (t_ids tk)); [discriminate|now apply Hup].
@@ -660,7 +799,7 @@ Proof.
     2:{ destruct (closed_chain l m GI (S n) gp g X Hb Hc Hg (cchain_sub _ _ _ HX)) as [Hm Hgo].
         assert (E : has_from v m l None g X (tsof X) = Some (manager_has_v v m g X (tsof X)))
           by (destruct l; reflexivity).
-        rewrite E, (manager_has_true tsof gof v Hv m g X Hm Hgo). discriminate. }
+        rewrite E, (manager_has_true tsof gof v Hv rst m g X Hm Hgo). discriminate. }
     destruct gp as [k|]; [|destruct l; destruct HX].
     destruct (get l k) as [tk|] eqn:Ek; [|rewrite (cchain_none l k Ek) in HX; destruct HX].
     assert (Hbk : forall p, t_gparent tk = Some p -> (p < k)%nat)
@@ -684,7 +823,7 @@ Proof.
       cbn [andb]. rewrite (gi_closed _ _ GI k tk Ek Eo).
       assert (E : has_from v m l None (t_grp tk) X (tsof X)
                   = Some (manager_has_v v m (t_grp tk) X (tsof X))) by (destruct l; reflexivity).
-      rewrite E, (manager_has_true tsof gof v Hv m (t_grp tk) X
+      rewrite E, (manager_has_true tsof gof v Hv rst m (t_grp tk) X
                     (gi_minv _ _ GI k tk X Ek Eo HX) Hgo).
       destruct (skip_own v (tsof X) (t_ts tk + t_th tk)); discriminate.
     + destruct (skip_own v (tsof X) (t_ts tk + t_th tk)); [now apply Hup|].
@@ -700,6 +839,12 @@ Definition valid_op (win : Z -> Z -> Z -> Prop) (st : state) (o : op) : Prop :=
       forall tk, get (s_trk st) t = Some tk -> forall p, In p txs ->
         snd p = tsof (fst p) /\ gof (fst p) = t_grp tk /\ t_ts tk <> 0 /\
         win (t_ts tk) (t_th tk) (snd p)
+  (* with restarts: the bound ts+th of a new block covers the transactions that the
+     manager can only find in the database while it does not know their bound *)
+  | ONewRoot g ts th => rst = true -> preok tsof gof (s_mgr st) g (ts + th)
+  | ONew p ts th => rst = true -> forall tp, get (s_trk st) p = Some tp ->
+                                   preok tsof gof (s_mgr st) (t_grp tp) (ts + th)
+  | ORestart => rst = true
   | _ => True
   end.
 
@@ -801,6 +946,10 @@ Proof.
       intro E. pose proof (gi_bound _ _ GI t tk t Ht E). lia.
     + rewrite chain_upd_leaf; [exact (gi_nodup _ _ GI Hf k)|exact Hleaf|congruence].
   - exact (gi_cinv _ _ GI).
+  - exact (gi_mx _ _ GI).
+  - intros Hr k tk' H Ho'.
+    destruct (Hshape k tk' H) as (tk0 & H0 & Egr & Ets & Eth & Eo & _).
+    rewrite Egr, Ets, Eth. rewrite Eo in Ho'. exact (gi_pre _ _ GI Hr k tk0 H0 Ho').
 Qed.
 
 (* ---- New ---- *)
@@ -820,9 +969,10 @@ Lemma ginv_push l m tn :
   (forall p, t_gparent tn = Some p -> exists tp, get l p = Some tp /\ t_grp tp = t_grp tn /\
         (t_parent tn = None -> t_open tp = false)) ->
   (forall p, t_parent tn = Some p -> t_gparent tn = Some p) ->
+  (rst = true -> preok tsof gof m (t_grp tn) (t_ts tn + t_th tn)) ->
   ginv (tn :: l) m.
 Proof.
-  intros GI Hids Hopen Hgp Hpar.
+  intros GI Hids Hopen Hgp Hpar Hpre.
   assert (Hold : forall k tk p, (k < length l)%nat -> get l k = Some tk -> t_gparent tk = Some p ->
                    get (tn :: l) p = get l p).
   { intros k tk p Hk H Hp. apply get_cons_ne. pose proof (gi_bound _ _ GI k tk p H Hp). lia. }
@@ -857,6 +1007,10 @@ Proof.
       destruct l; constructor.
     + exact (gi_nodup _ _ GI Hf k).
   - exact (gi_cinv _ _ GI).
+  - exact (gi_mx _ _ GI).
+  - intros Hr k tk H Ho. destruct (get_push _ _ _ _ H) as [[-> ->]|[Hk H0]].
+    + now apply Hpre.
+    + exact (gi_pre _ _ GI Hr k tk H0 Ho).
 Qed.
 
 (* ---- Commit ---- *)
@@ -870,10 +1024,14 @@ Proof.
   set (js := snd (commit_walk l (Some t))).
   set (m' := fold_left commit_list (rev js) m).
   assert (Hjs : forall L, In L (rev js) -> list_ok tsof gof (l_grp L) L).
-  { intros L HL. apply in_rev in HL. destruct (cw_jobs_from l (Some t) L HL) as (k & tk0 & Hk & ->).
+  { intros L HL. apply in_rev in HL. destruct (cw_jobs_from l (Some t) L HL) as (k & tk0 & Hk & _ & ->).
     intros Y HY. cbn in HY |- *. destruct (gi_ok _ _ GI k tk0 Y Hk HY) as (H1 & _ & H3 & H4). auto. }
-  destruct (commit_fold_inv tsof gof (rev js) m (gi_cinv _ _ GI) Hjs) as (Hc' & Hmono & Hnew).
-  fold m' in Hc', Hmono, Hnew.
+  assert (Hjp : rst = true -> forall L, In L (rev js) -> preok tsof gof m (l_grp L) (l_ts L + l_th L)).
+  { intros Hr L HL. apply in_rev in HL. destruct (cw_jobs_from l (Some t) L HL) as (k & tk0 & Hk & Ho & ->).
+    cbn. exact (gi_pre _ _ GI Hr k tk0 Hk Ho). }
+  destruct (commit_fold_inv tsof gof rst (rev js) m (gi_cinv _ _ GI) (gi_mx _ _ GI) Hjs Hjp)
+    as (Hc' & Hx' & Hmono & Hnew & Hpp).
+  fold m' in Hc', Hx', Hmono, Hnew, Hpp.
   assert (Hshape : forall k tk', get l' k = Some tk' ->
             exists tk0, get l k = Some tk0 /\ tk' = if on_path l (Some t) k then close tk0 else tk0).
   { intros k tk' H. unfold l' in H. rewrite cw_get in H.
@@ -925,6 +1083,10 @@ Proof.
     + apply Hmono. exact (gi_minv _ _ GI k tk0 X H0 Eo HX).
   - intros Hf k. unfold l'. rewrite cw_chain. exact (gi_nodup _ _ GI Hf k).
   - exact Hc'.
+  - exact Hx'.
+  - intros Hr k tk' H Ho. destruct (Hshape k tk' H) as (tk0 & H0 & ->).
+    destruct (on_path l (Some t) k); [discriminate|].
+    apply Hpp. exact (gi_pre _ _ GI Hr k tk0 H0 Ho).
 Qed.
 
 Lemma ginv_init : ginv [] new_manager.
@@ -932,6 +1094,48 @@ Proof.
   constructor; try (intros; discriminate).
   - intros _ k. constructor.
   - intros g P H. destruct g; destruct H.
+  - intros g. destruct g; cbn; lia.
+Qed.
+
+(* ---- Restart ---- *)
+
+Lemma ginv_restart l m : rst = true -> ginv l m -> ginv (map kill l) (restart_manager m).
+Proof.
+  intros Hr GI.
+  assert (Hshape : forall k tk', get (map kill l) k = Some tk' ->
+            exists tk0, get l k = Some tk0 /\ tk' = kill tk0).
+  { intros k tk' H. rewrite get_kill in H. destruct (get l k) as [tk0|]; [|discriminate].
+    exists tk0. cbn in H. split; congruence. }
+  assert (Hpar : forall k tk0, get l k = Some tk0 -> t_parent (kill tk0) = None).
+  { intros k tk0 H. unfold kill. destruct (t_open tk0) eqn:Eo; [reflexivity|].
+    exact (gi_closed _ _ GI k tk0 H Eo). }
+  constructor.
+  - intros k tk' p H Hp. destruct (Hshape k tk' H) as (tk0 & H0 & ->).
+    destruct (kill_fields tk0) as (_ & _ & _ & Eg & _). rewrite Eg in Hp.
+    exact (gi_bound _ _ GI k tk0 p H0 Hp).
+  - intros k tk' p H Hp. destruct (Hshape k tk' H) as (tk0 & H0 & ->).
+    rewrite (Hpar k tk0 H0) in Hp. discriminate.
+  - intros k tk' H _. destruct (Hshape k tk' H) as (tk0 & H0 & ->). exact (Hpar k tk0 H0).
+  - intros k tk' p tp' H _ _ Hp. destruct (Hshape p tp' Hp) as (tp0 & _ & ->).
+    now destruct (kill_fields tp0) as (_ & _ & _ & _ & Eo & _).
+  - intros k tk' X H HX. destruct (Hshape k tk' H) as (tk0 & H0 & ->).
+    destruct (kill_fields tk0) as (E1 & E2 & E3 & _ & _ & Hi & _).
+    unfold tx_ok. rewrite E1, E2, E3. apply (gi_ok _ _ GI k tk0 X H0). now apply Hi.
+  - intros k tk' p tp' H Hgp Hp. destruct (Hshape k tk' H) as (tk0 & H0 & ->).
+    destruct (Hshape p tp' Hp) as (tp0 & Hp0 & ->).
+    destruct (kill_fields tk0) as (E1 & _ & _ & Eg & _). destruct (kill_fields tp0) as (E1' & _).
+    rewrite E1, E1'. rewrite Eg in Hgp. exact (gi_grp _ _ GI k tk0 p tp0 H0 Hgp Hp0).
+  - intros k tk' X H _ HX. destruct (Hshape k tk' H) as (tk0 & H0 & ->).
+    destruct (kill_fields tk0) as (_ & _ & _ & _ & _ & Hi & _).
+    destruct (Hi X HX) as [HX0 Ho0].
+    destruct (gi_minv _ _ GI k tk0 X H0 Ho0 HX0) as [Hdb _].
+    split; [exact Hdb|]. right. right. split; [exact Hr|].
+    destruct (gof X); cbn; (split; [reflexivity|intros P []]).
+  - intros Hf k. apply chain_kill_nodup. exact (gi_nodup _ _ GI Hf k).
+  - intros g P H. destruct g; destruct H.
+  - intros g. destruct g; cbn; lia.
+  - intros _ k tk' H Ho. destruct (Hshape k tk' H) as (tk0 & _ & ->).
+    destruct (kill_fields tk0) as (_ & _ & _ & _ & Eo & _). congruence.
 Qed.
 
 (* ---- one step ---- *)
@@ -941,13 +1145,14 @@ Definition sinv (st : state) : Prop := ginv (s_trk st) (s_mgr st).
 Lemma step_inv win st o :
   win_ok win -> sinv st -> valid_op win st o -> sinv (fst (step_v v st o)).
 Proof.
-  intros Hw GI Hval. unfold sinv in *. destruct o as [g ts th|p ts th|t txs force|t|t id ts|g id ts];
+  intros Hw GI Hval. unfold sinv in *. destruct o as [g ts th|p ts th|t txs force|t|t id ts|g id ts|];
     cbn [step_v].
   - (* NewRoot *)
     cbn. apply ginv_push; cbn; auto; intros; discriminate.
   - (* New *)
     unfold tracker_new. destruct (get (s_trk st) p) as [tp|] eqn:Ep; [|exact GI].
-    cbn [fst s_trk s_mgr]. apply ginv_push; cbn [t_ids t_open t_gparent t_parent t_grp]; auto.
+    cbn [fst s_trk s_mgr].
+    apply ginv_push; cbn [t_ids t_open t_gparent t_parent t_grp t_ts t_th]; auto.
     + intros p0 Hp0. inversion Hp0; subst p0. exists tp. split; [assumption|split; [reflexivity|]].
       intro Hn. destruct (t_open tp); [|reflexivity]. cbn in Hn. discriminate.
     + intros p0 Hp0.
@@ -986,6 +1191,8 @@ Proof.
     destruct (commit_walk (s_trk st) (Some t)) as [trk js]. exact H.
   - destruct (tracker_has_v v st t id ts); exact GI.
   - exact GI.
+  - (* Restart *)
+    cbn. apply ginv_restart; assumption.
 Qed.
 
 Lemma run_inv win h : win_ok win -> forall st, sinv st -> hist_ok win st h -> sinv (run_v v st h).
@@ -1043,6 +1250,53 @@ Proof.
 Qed.
 
 End Hist.
+End RHist.
+
+(* ---- the development without restarts, under the names it always had ---- *)
+
+Definition minv tsof gof := RInv.minv tsof gof false.
+Definition list_ok := RInv.list_ok.
+Definition cinv := RInv.cinv.
+Definition closed_at := RHist.closed_at.
+Definition grp_at := RHist.grp_at.
+Definition win_ok := RHist.win_ok.
+Definition valid_op tsof gof := RHist.valid_op tsof gof false.
+Definition hist_ok tsof gof v := RHist.hist_ok tsof gof v false.
+Definition ginv tsof gof v full := RHist.ginv tsof gof v full false.
+Definition sinv tsof gof v full := RHist.sinv tsof gof v full false.
+
+Lemma manager_has_true tsof gof v (Hv : sound_variant v) m g X :
+  minv tsof gof m X -> gof X = g -> manager_has_v v m g X (tsof X) = true.
+Proof. exact (RInv.manager_has_true tsof gof v Hv false m g X). Qed.
+
+Lemma ginv_init tsof gof v full : ginv tsof gof v full [] new_manager.
+Proof. exact (RHist.ginv_init tsof gof v full false). Qed.
+
+Lemma closed_chain tsof gof v full l m : ginv tsof gof v full l m -> forall n gp g X,
+  (forall p, gp = Some p -> (p < n)%nat) -> closed_at l gp -> grp_at l gp g ->
+  In X (chain_from l gp) -> minv tsof gof m X /\ gof X = g.
+Proof. exact (RHist.closed_chain tsof gof v full false l m). Qed.
+
+Lemma run_inv tsof gof v (Hv : sound_variant v) full win h :
+  win_ok v full win -> forall st, sinv tsof gof v full st -> hist_ok tsof gof v win st h ->
+  sinv tsof gof v full (run_v v st h).
+Proof. exact (RHist.run_inv tsof gof v Hv full false win h). Qed.
+
+(* histories in which the node may restart *)
+Definition hist_ok_r tsof gof v := RHist.hist_ok tsof gof v true.
+
+(* ... and the validity of the Adds alone (no condition on restarts or on new blocks) *)
+Definition valid_op_free (tsof : N -> Z) (gof : N -> bool) (win : Z -> Z -> Z -> Prop)
+           (st : state) (o : op) : Prop :=
+  match o with
+  | OAdd t txs force => RHist.valid_op tsof gof false win st o
+  | _ => True
+  end.
+Fixpoint hist_ok_free tsof gof v (win : Z -> Z -> Z -> Prop) (st : state) (h : list op) : Prop :=
+  match h with
+  | [] => True
+  | o :: r => valid_op_free tsof gof win st o /\ hist_ok_free tsof gof v win (fst (step_v v st o)) r
+  end.
 
 (* ------------------------------------------------------------------ *)
 (* E. the theorems of C11                                              *)
@@ -1067,13 +1321,26 @@ Proof. intros bts th ts H. unfold in_window in H. split; [lia|discriminate]. Qed
 Lemma no_replay_strict tsof gof h :
   hist_ok tsof gof VStrict in_window init h ->
   forall t, NoDup (chain_ids (run_v VStrict init h) t).
-Proof. apply (no_replay_gen tsof gof VStrict (or_intror eq_refl) true in_window h eq_refl win_ok_strict). Qed.
+Proof. apply (RHist.no_replay_gen tsof gof VStrict (or_intror eq_refl) true false in_window h eq_refl win_ok_strict). Qed.
 
 (* the code as it is: the property holds except for timestamps exactly at bts+th *)
 Lemma no_replay_except_bound tsof gof h :
   hist_ok tsof gof VCode in_window_open init h ->
   forall t, NoDup (chain_ids (run init h) t).
-Proof. apply (no_replay_gen tsof gof VCode (or_introl eq_refl) true in_window_open h eq_refl win_ok_code_open). Qed.
+Proof. apply (RHist.no_replay_gen tsof gof VCode (or_introl eq_refl) true false in_window_open h eq_refl win_ok_code_open). Qed.
+
+(* the same two statements for histories with restarts of the node: they hold when
+   every block created while the manager does not know the bound of older data
+   (maxTSInDB = 0) has ts+th above the timestamps of that data — hist_ok_r *)
+Lemma no_replay_restart_strict tsof gof h :
+  hist_ok_r tsof gof VStrict in_window init h ->
+  forall t, NoDup (chain_ids (run_v VStrict init h) t).
+Proof. apply (RHist.no_replay_gen tsof gof VStrict (or_intror eq_refl) true true in_window h eq_refl win_ok_strict). Qed.
+
+Lemma no_replay_restart_except_bound tsof gof h :
+  hist_ok_r tsof gof VCode in_window_open init h ->
+  forall t, NoDup (chain_ids (run init h) t).
+Proof. apply (RHist.no_replay_gen tsof gof VCode (or_introl eq_refl) true true in_window_open h eq_refl win_ok_code_open). Qed.
 
 (* the code as it is, full window: what is committed is never accepted again;
    the open bound concerns uncommitted ancestors only *)
@@ -1085,7 +1352,7 @@ Lemma committed_not_replayed tsof gof h t txs :
     get (s_trk st) t = Some tk -> t_ids tk = [] -> get (s_trk st') t = Some tk' ->
     forall X, In X (t_ids tk') -> ~ In X (cchain_from (s_trk st) (t_gparent tk)).
 Proof.
-  apply (committed_not_replayed_gen tsof gof VCode (or_introl eq_refl) false in_window h t txs
+  apply (RHist.committed_not_replayed_gen tsof gof VCode (or_introl eq_refl) false false in_window h t txs
            (win_ok_any VCode)).
 Qed.
 
@@ -1104,13 +1371,23 @@ Proof.
 Qed.
 
 Ltac solve_valid :=
-  cbn;
+  unfold hist_ok, hist_ok_r, valid_op; cbn;
   repeat match goal with
          | |- _ /\ _ => split
          | |- True => exact I
+         | |- true = true => reflexivity
+         | |- false = true -> _ => let H := fresh in intro H; discriminate H
+         | |- true = true -> _ => intros _
          | |- leaf _ _ => let tk := fresh in let H := fresh in
                           intros tk H; cbn in H;
                           repeat (destruct H as [H|H]; [subst tk; cbn; congruence|]); destruct H
+         | |- forall tp, Some _ = Some tp -> RInv.preok _ _ _ _ _ =>
+             let tp := fresh in let E := fresh in intros tp E; inversion E; subst tp; clear E; cbn
+         | |- RInv.preok _ _ _ _ _ =>
+             let X := fresh in let H := fresh in
+             unfold RInv.preok; cbn; intros X H;
+             repeat (destruct H as [H|H]; [subst X; cbn; intros; try lia; try congruence; try tauto|]);
+             try destruct H
          | |- forall tk, Some _ = Some tk -> _ =>
              let tk := fresh in let E := fresh in let p := fresh in let H := fresh in
              intros tk E p H; inversion E; subst tk; clear E; cbn in H;
@@ -1245,3 +1522,75 @@ Proof.
   - vm_compute. now left.
   - eexists. vm_compute. reflexivity.
 Qed.
+
+(* ------------------------------------------------------------------ *)
+(* G. restarts of the node                                             *)
+(* ------------------------------------------------------------------ *)
+
+(* (7) restart + threshold decrease.  Block (100, th 60) holds tx 7 with timestamp 150
+   and is finalized; the node restarts (new manager, maxTSInDB = 0); the first list of
+   the new manager (101, th 5) is evicted by (112, 5): maxTSInDB = 106 < 150; block
+   (147, 5), window (142,152], takes tx 7 again: the cache shortcut skips the database.
+   Every Add is a validated one, no timestamp is on a window bound. *)
+Definition h_restart : list op :=
+  [ ONewRoot true 50 10;
+    ONew 0 100 60; OAdd 1 [(7%N, 150)] false; OCommit 1;
+    ORestart;
+    ONew 1 101 5; OAdd 2 [(8%N, 103)] false; OCommit 2;
+    ONew 2 112 5; OAdd 3 [] false; OCommit 3;
+    ONew 3 147 5; OAdd 4 [(7%N, 150)] false ].
+
+Definition ts_restart (i : N) : Z := match i with 8%N => 103 | _ => 150 end.
+
+Lemma h_restart_valid v :
+  hist_ok_free ts_restart (fun _ => true) v in_window_open init h_restart.
+Proof. unfold h_restart. destruct v; cbn; solve_valid. Qed.
+
+Lemma restart_refuted :
+  exists tsof gof h t,
+    hist_ok_free tsof gof VCode in_window_open init h /\ ~ NoDup (chain_ids (run init h) t).
+Proof.
+  exists ts_restart, (fun _ => true), h_restart, 4%nat. split; [apply h_restart_valid|].
+  intro H. apply nodupb_spec in H. vm_compute in H. discriminate.
+Qed.
+
+(* the guard of tracker.Has plays no part: the same with `>` *)
+Lemma restart_refuted_strict :
+  exists tsof gof h t,
+    hist_ok_free tsof gof VStrict in_window_open init h /\
+    ~ NoDup (chain_ids (run_v VStrict init h) t).
+Proof.
+  exists ts_restart, (fun _ => true), h_restart, 4%nat. split; [apply h_restart_valid|].
+  intro H. apply nodupb_spec in H. vm_compute in H. discriminate.
+Qed.
+
+(* what h_restart lacks to be a hist_ok_r history: the bound 101+5 of the first block
+   after the restart is below the timestamp of tx 7, which only the database knows *)
+Example h_restart_breaks_bound :
+  ~ RInv.preok ts_restart (fun _ => true) (s_mgr (run init (firstn 5 h_restart))) true (101 + 5).
+Proof.
+  intro H. specialize (H 7%N). vm_compute in H.
+  apply H; auto; try reflexivity.
+Qed.
+
+(* a sufficient reading of the condition: the bound of the new block is at least the
+   timestamp of every transaction of its group in the database *)
+Lemma preok_of_db_bound tsof gof m g bound :
+  (forall X, In X (m_db m) -> gof X = g -> tsof X <= bound) -> RInv.preok tsof gof m g bound.
+Proof. intros H X Hdb Hg _ _ _. now apply H. Qed.
+
+(* (8) the hypotheses of the theorems with restarts are met by a non-trivial history:
+   the threshold does not shrink across the restart *)
+Definition h_restart_ok : list op :=
+  [ ONewRoot true 50 10;
+    ONew 0 100 60; OAdd 1 [(7%N, 150)] false; OCommit 1;
+    ORestart;
+    ONew 1 101 60; OAdd 2 [(8%N, 103)] false; OCommit 2;
+    ONew 2 112 60; OAdd 3 [] false; OCommit 3;
+    ONew 3 147 60; OAdd 4 [(9%N, 150)] false ].
+Example h_restart_ok_valid :
+  hist_ok_r ts_restart (fun _ => true) VCode in_window_open init h_restart_ok.
+Proof. unfold h_restart_ok. solve_valid. Qed.
+Example h_restart_ok_rejects :
+  snd (step (run init (firstn 12 h_restart_ok)) (OAdd 4 [(7%N, 150)] false)) = RAdd 0 1%N.
+Proof. vm_compute. reflexivity. Qed.
